@@ -89,12 +89,13 @@ func (e *Engine) VerifyFunctionAs(fn *ssa.Function, c *Contract, panics bool, pr
 	for pi, p := range fn.Params {
 		v := e.freshVal(p.Type(), "p!"+p.Name())
 		r.vals[p] = v
-		if ifaceKey == "" {
-			env.vars[p.Name()] = CV{V: v, T: p.Type()}
-		} else if pi == 0 {
-			env.vars["this"] = CV{V: r.makeInterface(st, v, p.Type()), T: specTypes["iface"]}
-		} else {
-			env.vars[ifaceNames[pi-1]] = CV{V: v, T: p.Type()}
+		env.vars[p.Name()] = CV{V: v, T: p.Type()}
+		if ifaceKey != "" {
+			if pi == 0 {
+				env.vars["this"] = CV{V: r.makeInterface(st, v, p.Type()), T: specTypes["iface"]}
+			} else {
+				env.vars[ifaceNames[pi-1]] = CV{V: v, T: p.Type()}
+			}
 		}
 		var pt *Term
 		if s, ok := v.(Scalar); ok && isPointerLike(p.Type()) {
@@ -122,6 +123,12 @@ func (e *Engine) VerifyFunctionAs(fn *ssa.Function, c *Contract, panics bool, pr
 	// trace starts empty
 	st.Ghost["trace.len"] = tb.BVI(64, 0)
 	if c != nil {
+		if ifaceKey != "" && own != nil {
+			// entry values named by the implementation's own contract (used by its loop invariants)
+			for _, l := range own.Lets {
+				env.vars[l.Name] = env.Eval(l.E)
+			}
+		}
 		for _, l := range c.Lets {
 			env.vars[l.Name] = env.Eval(l.E)
 		}
@@ -403,6 +410,9 @@ func (r *FnRun) enterLoop(li *loopInfo, edges []edge) *State {
 	}
 	// check invariants on entry
 	envIn := r.loopEnv(stIn, in.phis)
+	for _, u := range li.Spec.Uses {
+		r.assume(stIn, envIn.useAxiom(u))
+	}
 	for i, inv := range li.Spec.Inv {
 		if !r.root.wantClause(inv) {
 			continue
@@ -412,7 +422,9 @@ func (r *FnRun) enterLoop(li *loopInfo, edges []edge) *State {
 	}
 	// havoc
 	cur := stIn.Clone()
+	r.loopEntryState = stIn
 	mods := r.loopMods(li)
+	mods = r.degradeImprecise(mods)
 	r.applyLoopHavoc(cur, stIn, mods, li)
 	li.phiVals = map[*ssa.Phi]Val{}
 	for _, ins := range h.Instrs {
@@ -753,8 +765,9 @@ func (r *FnRun) staticMod(m string, c *Contract, cc *ssa.CallCommon, callee *ssa
 		}
 		return []ModTarget{{Kind: "heaptype", ObjT: pt.Elem()}}
 	}
-	// walk the field path; only the first hop can be address-precise
+	// walk the field path; intermediate pointers are read from the loop-entry heap (checked afterwards not to be modified in the loop)
 	curT := pt.Elem()
+	var viaKeys []string
 	for hop, field := range path {
 		su, ok := curT.Underlying().(*types.Struct)
 		if !ok {
@@ -771,17 +784,22 @@ func (r *FnRun) staticMod(m string, c *Contract, cc *ssa.CallCommon, callee *ssa
 				if _, isBA := isByteArray(ft); isBA {
 					return []ModTarget{{Kind: "BH"}}
 				}
-				a := addr
-				if hop > 0 {
-					a = nil
-				}
-				return []ModTarget{{Kind: "field", Key: fieldKey(curT, i), FT: ft, Addr: a}}
+				return []ModTarget{{Kind: "field", Key: fieldKey(curT, i), FT: ft, Addr: addr, Via: viaKeys}}
 			}
 			if p2, isP := ft.Underlying().(*types.Pointer); isP {
+				if addr != nil && r.loopEntryState != nil {
+					k := fieldKey(curT, i)
+					addr = r.tb().Select(r.e.heapArr(r.loopEntryState, k, BV64), addr)
+					viaKeys = append(viaKeys, k)
+				} else {
+					addr = nil
+				}
 				curT = p2.Elem()
 			} else {
+				addr = nil
 				curT = ft
 			}
+			_ = hop
 		}
 		if !found {
 			return []ModTarget{{Kind: "all"}}
@@ -962,3 +980,43 @@ func (r *FnRun) applyLoopHavoc(cur, pre *State, mods []ModTarget, li *loopInfo) 
 }
 
 var _ = token.NoPos
+
+// degradeImprecise: a precise target reached through pointer fields is only valid if those fields are not
+// themselves modified in the loop; otherwise fall back to the whole array.
+func (r *FnRun) degradeImprecise(mods []ModTarget) []ModTarget {
+	modified := map[string]bool{}
+	all := false
+	for _, m := range mods {
+		switch m.Kind {
+		case "field":
+			for _, s := range leafSuffixesOrEmpty(m.FT) {
+				modified[m.Key+s] = true
+			}
+		case "heaptype", "obj":
+			for _, lk := range r.typeLeafKeys(m.ObjT) {
+				modified[lk.key] = true
+			}
+		case "all":
+			all = true
+		}
+	}
+	for i := range mods {
+		for _, k := range mods[i].Via {
+			if all || modified[k] {
+				mods[i].Addr = nil
+			}
+		}
+	}
+	return mods
+}
+
+func leafSuffixesOrEmpty(t types.Type) []string {
+	if t == nil {
+		return []string{""}
+	}
+	var out []string
+	for _, s := range leafSuffixes(t) {
+		out = append(out, s.s)
+	}
+	return out
+}
